@@ -31,11 +31,12 @@ CONSTANTS Roles,        \* function PID -> "pat" | "pmt" | "si" | "es"
 VARIABLES cur, gcc, nunits, uid, units, lastpkt, patDone, npk, nfault, dropRun, hist,   \* generator + channel
           acc, pm, delivered, nread,                                                     \* faulted (= observed) demuxer
           accC, pmC, deliveredC, nreadC,                                                 \* clean twin
-          hit                                                                            \* units touched by a fault / preceding a gap
+          hit,                                                                           \* units touched by a fault / preceding a gap
+          optional                                                                       \* PMT-PID units complete before the first PAT is: a receiver cannot know them
 gvars == <<cur, gcc, nunits, uid, units, lastpkt, patDone, npk, nfault, dropRun, hist>>
 dvars == <<acc, pm, delivered, nread>>
 cvars == <<accC, pmC, deliveredC, nreadC>>
-vars == <<gvars, dvars, cvars, hit>>
+vars == <<gvars, dvars, cvars, hit, optional>>
 
 PIDs == DOMAIN Roles
 HasDev(d) == d \in Dev
@@ -142,7 +143,7 @@ Init ==
   /\ uid = 0 /\ units = <<>> /\ lastpkt = <<>> /\ patDone = FALSE /\ npk = 0 /\ nfault = 0 /\ dropRun = [p \in PIDs |-> 0] /\ hist = <<>>
   /\ acc = [p \in PIDs |-> <<>>] /\ pm = {} /\ delivered = <<>> /\ nread = 0
   /\ accC = [p \in PIDs |-> <<>>] /\ pmC = {} /\ deliveredC = <<>> /\ nreadC = 0
-  /\ hit = {}
+  /\ hit = {} /\ optional = {}
 
 ChunkOK(pid, t, off, n) ==
   LET tot == Total(t) IN
@@ -179,6 +180,7 @@ Emit(us, pid, u, t, off, n, pusi, sl, f) ==
      /\ LET lp0 == IF u > Len(lastpkt) THEN Append(lastpkt, 0) ELSE lastpkt
         IN lastpkt' = IF off < secend /\ off + n >= secend THEN [lp0 EXCEPT ![u] = nreadC + 1] ELSE lp0
      /\ patDone' = (patDone \/ (Roles[pid] = "pat" /\ off + n >= secend))
+     /\ optional' = IF Roles[pid] = "pmt" /\ ~patDone /\ off < secend /\ off + n >= secend THEN optional \cup {u} ELSE optional
 
 Start(pid) ==
   /\ npk < MaxPkts /\ cur[pid] = None /\ nunits[pid] < MaxUnits
@@ -212,7 +214,7 @@ Insert(k, pid) ==
        IN /\ acc' = d.acc /\ pm' = d.pm /\ delivered' = d.delivered /\ nread' = d.nread
           /\ hist' = Append(hist, p @@ [ins |-> TRUE])
   /\ npk' = npk + 1
-  /\ UNCHANGED <<cur, gcc, nunits, uid, units, lastpkt, patDone, hit, nfault, dropRun, cvars>>
+  /\ UNCHANGED <<cur, gcc, nunits, uid, units, lastpkt, patDone, hit, nfault, dropRun, cvars, optional>>
 
 Next ==
   \/ \E pid \in PIDs : Start(pid) \/ Cont(pid)
@@ -228,7 +230,7 @@ RECURSIVE ItemsOf(_, _)
 ItemsOf(pid, i) ==
   IF i > Len(units) THEN <<>>
   ELSE LET un == units[i] t == un.tmpl
-           mine == IF un.pid # pid \/ un.early THEN <<>>
+           mine == IF un.pid # pid \/ un.id \in optional THEN <<>>
                    ELSE IF t.t = "pes" THEN << <<"pes", un.id, 0, t.total - t.hl>> >>
                    ELSE LET js == SelectSeq([j \in 1..Len(t.secs) |-> j], LAMBDA j : KindOf(t.secs[j].tid) # "none" /\ t.secs[j].crcok)
                         IN [x \in DOMAIN js |-> <<KindOf(t.secs[js[x]].tid), un.id, js[x], 0>>]
@@ -237,10 +239,10 @@ FinalF == delivered \o Drain(acc, pm, nread + 1)
 FinalC == deliveredC \o Drain(accC, pmC, nreadC + 1)
 
 \* C02: at every quiescent point the clean demuxer has delivered / will drain exactly the carried units, per PID in order
-NotEarly(s) == SelectSeq(s, LAMBDA x : ~units[x.u].early)
+NotEarly(s) == SelectSeq(s, LAMBDA x : x.u \notin optional)
 C02_Carried == (Quiescent /\ nfault = 0) => \A pid \in PIDs : Ids(NotEarly(PerPid(FinalC, pid))) = ItemsOf(pid, 1)
 \* C02: a PAT/PMT is delivered by the call that reads its final packet
-C02_NoReadAhead == \A i \in DOMAIN deliveredC : (deliveredC[i].k \in {"pat", "pmt"} /\ ~units[deliveredC[i].u].early) => deliveredC[i].at = lastpkt[deliveredC[i].u]
+C02_NoReadAhead == \A i \in DOMAIN deliveredC : (deliveredC[i].k \in {"pat", "pmt"} /\ deliveredC[i].u \notin optional) => deliveredC[i].at = lastpkt[deliveredC[i].u]
 \* C06: duplicates never remove or alter; on PES PIDs the output is identical
 OnlyDups == \A i \in DOMAIN hist : "f" \in DOMAIN hist[i] => hist[i].f = "dup"
 RECURSIVE IsSubseq(_, _)
@@ -259,7 +261,7 @@ C06_LossSafe == (Quiescent /\ LossDomain) => \A pid \in PIDs :
 \* inserted null / adaptation-only / transport-error packets must leave every PID's deliveries unchanged:
 C07_InsertHarmless == (Quiescent /\ nfault = 0) => \A pid \in PIDs : Ids(PerPid(FinalF, pid)) = Ids(PerPid(FinalC, pid))
 
-View == <<cur, gcc, nunits, patDone, npk, nfault, dropRun, acc, pm, accC, pmC, hit, [i \in DOMAIN units |-> <<units[i].pid, units[i].tmpl, units[i].early>>]>>
+View == <<cur, gcc, nunits, patDone, npk, nfault, dropRun, acc, pm, accC, pmC, hit, optional, [i \in DOMAIN units |-> <<units[i].pid, units[i].tmpl, units[i].early>>]>>
 \* what the model says the clean demuxer delivers in total (deliveries so far + EOF drain), for transitions that end in a quiescent state:
 \* replayed into the real Demuxer and compared delivery by delivery (model -> code conformance, reported as drift)
 QuiescentP == \A p \in PIDs : cur'[p] = None
